@@ -38,7 +38,7 @@ def run(chk, scratch):
     skipped = sum(1 for e in ev if e.get("skipped"))
     chk.cov["skipped_precondition_sandbox_path_matches"] = skipped
     chk.nontrivial += sum(1 for e in ev if not e.get("skipped") and (e.get("patterns")))
-    chk.cov["rule"] = ("scenario = one of three fixed trees over names in {x,y,X,Y}* (patterns hit at every depth) x a set of 0..2 patterns out of 11 regular-expression ASTs (one of them case-folding) x one of 9 operations; "
+    chk.cov["rule"] = ("scenario = one of three fixed trees over names in {x,y,X,Y}* (patterns hit at every depth) x a set of 0..2 patterns out of 12 regular-expression ASTs (one of them case-folding) x one of 9 operations; "
                        "TLC computes MustSkip / MustProcess from the AST semantics; each scenario runs on MemMapFs and on the OS filesystem, plus the model's 6 invalid pattern sets (single invalid members, and pairs that only balance when glued together) per tree/operation/backend; "
                        "scenarios whose sandbox path itself contains a match are skipped (precondition of the statement); non-trivial = at least one pattern")
     chk.assumptions += ["Go regexp source generated from the AST (literal, ., concatenation, (a|b), (a)*, (?i)a)"]
